@@ -51,8 +51,9 @@ class Item:
         return f"<{self.kind} ts={self.ts} len={len(self.data)}>"
 
 
-def pkt(ts, data):
-    return Item("pkt", Fraction(ts), data)
+def pkt(ts, data, orig_len=None):
+    """orig_len: length of the packet on the wire when the capture kept only its first len(data) bytes (snap length)"""
+    return Item("pkt", Fraction(ts), data, orig_len)
 
 
 def dsb(text):
@@ -117,7 +118,7 @@ def write_pcapng(items, endian="<", tsresol=None, tsoffset=None, shb_opts=None, 
             if t.denominator != 1:
                 raise ValueError(f"timestamp {it.ts} not representable with unit {unit}")
             t = int(t)
-            body = struct.pack(e + "IIIII", 0, t >> 32, t & 0xFFFFFFFF, len(it.data), len(it.data)) + _pad(it.data)
+            body = struct.pack(e + "IIIII", 0, t >> 32, t & 0xFFFFFFFF, len(it.data), it.extra or len(it.data)) + _pad(it.data)
             out += _block(e, BT_EPB, body + _opts(e, epb_opts))
         elif it.kind == "dsb":
             body = struct.pack(e + "II", TLS_KEYLOG_SECRETS, len(it.data)) + _pad(it.data)
@@ -140,7 +141,7 @@ def write_pcap(items, endian="<", nano=False, linktype=1):
         frac = (it.ts - sec) * (10 ** 9 if nano else 10 ** 6)
         if frac.denominator != 1:
             raise ValueError("timestamp not representable")
-        out += struct.pack(e + "IIII", sec, int(frac), len(it.data), len(it.data)) + it.data
+        out += struct.pack(e + "IIII", sec, int(frac), len(it.data), it.extra or len(it.data)) + it.data
     return out
 
 
